@@ -661,16 +661,43 @@ theorem mval_agrees_partial (F : Facts) (hF : selFacts F) (hb : bindCopies F) (h
     checkStmt .yaegi F D e (.mval x r m) = checkStmt .go F D e (.mval x r m) ∧
     execStmt .yaegi F D e s (.mval x r m) = execStmt .go F D e s (.mval x r m) := by
   have hsel : selectY F D t m = select D t m := select_eq_spec_partial F hF D t m h
-  constructor
-  · simp only [checkStmt, hr, selLegal_agree F D t m hsel]
-  · simp only [execStmt]
-    cases hri : recvInst D s r with
-    | none => rfl
-    | some p =>
-      obtain ⟨t', i, s1⟩ := p
-      have := hdyn t' i s1 hri
-      subst this
-      simp only [sel, hsel, hc, Bool.or_true, if_true, bindRecv_who F hb]
+  cases r with
+  | ifc i => simp [recvStatic] at hr
+  | nil => simp [recvStatic] at hr
+  | tmp t0 b => simp [recvStatic] at hr
+  | var y =>
+    constructor
+    · simp only [checkStmt, hr, selLegal_agree F D t m hsel]
+    · simp only [execStmt]
+      cases hri : recvInst D s (.var y) with
+      | none => rfl
+      | some p =>
+        obtain ⟨t', i, s1⟩ := p
+        have := hdyn t' i s1 hri
+        subst this
+        simp only [sel, hsel, hc, Bool.or_true, if_true, bindRecv_who F hb]
+  | addr y =>
+    constructor
+    · simp only [checkStmt, hr, selLegal_agree F D t m hsel]
+    · simp only [execStmt]
+      cases hri : recvInst D s (.addr y) with
+      | none => rfl
+      | some p =>
+        obtain ⟨t', i, s1⟩ := p
+        have := hdyn t' i s1 hri
+        subst this
+        simp only [sel, hsel, hc, Bool.or_true, if_true, bindRecv_who F hb]
+  | ptrvar y =>
+    constructor
+    · simp only [checkStmt, hr, selLegal_agree F D t m hsel]
+    · simp only [execStmt]
+      cases hri : recvInst D s (.ptrvar y) with
+      | none => rfl
+      | some p =>
+        obtain ⟨t', i, s1⟩ := p
+        have := hdyn t' i s1 hri
+        subst this
+        simp only [sel, hsel, hc, Bool.or_true, if_true, bindRecv_who F hb]
 
 /-- **calling a method value**: `g()` does the same under both rule sets in *every* state (whatever
     closure `g` holds), when the binding copies: each call works on a fresh copy of the bound value
@@ -768,28 +795,35 @@ theorem assert_agrees_partial (F : Facts) (D : Decls) (e : SEnv) (s : St) (x y :
 /-! ### receiver passing -/
 
 /-- one of the two steps of the receiver binding of `genFunctionWrapper` that a value receiver goes
-    through copies: the callback (`d[numRet].Set(recv)`), or both arms that serve value receivers
-    (`recv = copyDeferArg(src.Elem())`, `recv = copyDeferArg(src)`) -/
+    through copies: the callback (`d[numRet].Set(recv)`, and `d[numRet].Set(bindRecv())` for the
+    receivers resolved at each call), or both arms that serve value receivers
+    (`copyDeferArg(src.Elem())`, `copyDeferArg(src)`) -/
 def recvCopies (F : Facts) : Prop :=
-  F.recvBind.call = .set ∨ (F.recvBind.ptrToVal = .set ∧ F.recvBind.same = .set)
+  (F.recvBind.call = .set ∧ F.recvBind.lateCall = .set) ∨ (F.recvBind.ptrToVal = .set ∧ F.recvBind.same = .set)
 
 instance (F : Facts) : Decidable (recvCopies F) := by unfold recvCopies; infer_instance
 
+theorem recvCopies_slot (F : Facts) (hF : recvCopies F) (vi : Bool) :
+    callSlot F vi = .set ∨ (F.recvBind.ptrToVal = .set ∧ F.recvBind.same = .set) := by
+  rcases hF with ⟨h1, h2⟩ | h
+  · left; unfold callSlot; cases vi <;> cases F.recvBind.lateNilNode <;> simp [h1, h2]
+  · exact Or.inr h
+
 /-- **a value receiver is a copy**: a method with a value receiver, invoked on any operand (`srcPtr`:
     through a pointer — pointer variable, `&v`, last field of the promotion path embedded by pointer,
-    interface holding a pointer, method value bound from a pointer — or on a value), whatever
-    assignments to fields of its receiver its body makes (`body`: any sequence of `r.p = v` /
-    `r.p += d`, any paths, any values), leaves every cell that existed before the call unchanged,
-    except those the operand itself reaches through an embedded pointer (shared in Go as well).
-    Under Go's rules always; under the interpreter's when the binding copies (`recvCopies`, the
-    extracted value). All declaration sets, receiver types, storages and heaps. -/
+    interface holding a pointer, method value bound from a pointer — or on a value; `vi`: selected on
+    the value held by an interface), whatever assignments to fields of its receiver its body makes
+    (`body`: any sequence of `r.p = v` / `r.p += d`, any paths, any values), leaves every cell that
+    existed before the call unchanged, except those the operand itself reaches through an embedded
+    pointer (shared in Go as well). Under Go's rules always; under the interpreter's when the binding
+    copies (`recvCopies`, the extracted value). All declaration sets, receiver types, storages, heaps. -/
 theorem value_receiver_is_copy (w : Who) (F : Facts) (hF : recvCopies F)
-    (D : Decls) (owner : Nat) (m : Meth) (hm : m.ptr = false) (srcPtr : Bool) (inst : Inst) (h : Heap)
+    (D : Decls) (owner : Nat) (m : Meth) (hm : m.ptr = false) (srcPtr vi : Bool) (inst : Inst) (h : Heap)
     (body : List Write) (a : Nat) (ha : a < h.length)
     (hown : ∀ pa ∈ inst, viaPtr D owner pa.1 = true → pa.2 ≠ a) :
-    cell (runBody (recvStorage w F D owner m srcPtr inst h).1 body (recvStorage w F D owner m srcPtr inst h).2) a
+    cell (runBody (recvStorage w F D owner m srcPtr vi inst h).1 body (recvStorage w F D owner m srcPtr vi inst h).2) a
       = cell h a := by
-  obtain ⟨⟨ext, hext⟩, hcells⟩ := recvStorage_fresh w F D owner m hm srcPtr inst h (Or.inr hF)
+  obtain ⟨⟨ext, hext⟩, hcells⟩ := recvStorage_fresh w F D owner m hm srcPtr vi inst h (Or.inr (recvCopies_slot F hF vi))
   rw [runBody_other _ a (by
     intro pa hpa
     rcases hcells pa hpa with hfresh | ⟨hin, hv⟩
@@ -799,31 +833,100 @@ theorem value_receiver_is_copy (w : Who) (F : Facts) (hF : recvCopies F)
 /-- **the caller's object is unchanged**: for a receiver type without embedded pointers the values
     of the operand's storage after the body has run are the values before the call -/
 theorem value_receiver_caller_unchanged (w : Who) (F : Facts) (hF : recvCopies F)
-    (D : Decls) (owner : Nat) (m : Meth) (hm : m.ptr = false) (srcPtr : Bool) (inst : Inst) (h : Heap)
+    (D : Decls) (owner : Nat) (m : Meth) (hm : m.ptr = false) (srcPtr vi : Bool) (inst : Inst) (h : Heap)
     (body : List Write) (hin : ∀ pa ∈ inst, pa.2 < h.length) (hfree : ∀ pa ∈ inst, viaPtr D owner pa.1 = false) :
-    values inst (runBody (recvStorage w F D owner m srcPtr inst h).1 body (recvStorage w F D owner m srcPtr inst h).2)
+    values inst (runBody (recvStorage w F D owner m srcPtr vi inst h).1 body (recvStorage w F D owner m srcPtr vi inst h).2)
       = values inst h := by
   unfold values
   apply List.map_congr_left
   intro pa hpa
   obtain ⟨p, a⟩ := pa
   simp only
-  rw [value_receiver_is_copy w F hF D owner m hm srcPtr inst h body a (hin (p, a) hpa)
+  rw [value_receiver_is_copy w F hF D owner m hm srcPtr vi inst h body a (hin (p, a) hpa)
     (fun q hq hv => by rw [hfree q hq] at hv; exact absurd hv (by decide))]
 
 /-- the same for the facts regenerated from the source, under the interpreter's rules -/
-theorem value_receiver_is_copy_generated (D : Decls) (owner : Nat) (m : Meth) (hm : m.ptr = false) (srcPtr : Bool)
+theorem value_receiver_is_copy_generated (D : Decls) (owner : Nat) (m : Meth) (hm : m.ptr = false) (srcPtr vi : Bool)
     (inst : Inst) (h : Heap) (body : List Write) (hin : ∀ pa ∈ inst, pa.2 < h.length)
     (hfree : ∀ pa ∈ inst, viaPtr D owner pa.1 = false) :
-    values inst (runBody (recvStorage .yaegi Generated.C05.facts D owner m srcPtr inst h).1 body
-      (recvStorage .yaegi Generated.C05.facts D owner m srcPtr inst h).2) = values inst h :=
-  value_receiver_caller_unchanged .yaegi _ (by rw [facts_tie]; decide) D owner m hm srcPtr inst h body hin hfree
+    values inst (runBody (recvStorage .yaegi Generated.C05.facts D owner m srcPtr vi inst h).1 body
+      (recvStorage .yaegi Generated.C05.facts D owner m srcPtr vi inst h).2) = values inst h :=
+  value_receiver_caller_unchanged .yaegi _ (by rw [facts_tie]; decide) D owner m hm srcPtr vi inst h body hin hfree
 
 /-- **a pointer receiver is the address**: the body works on the operand's own storage, whatever
     the facts are -/
 theorem pointer_receiver_is_address (w : Who) (F : Facts) (D : Decls) (owner : Nat) (m : Meth) (hm : m.ptr = true)
-    (srcPtr : Bool) (inst : Inst) (h : Heap) : recvStorage w F D owner m srcPtr inst h = (inst, h) := by
+    (srcPtr vi : Bool) (inst : Inst) (h : Heap) : recvStorage w F D owner m srcPtr vi inst h = (inst, h) := by
   simp [recvStorage, bindRecv, enterRecv, hm]
+
+/-! ### methods selected on the value held by an interface (F05-18 repaired) -/
+
+/-- **the receiver of a call holds the operand's values at the time the storage is made**, whichever
+    step copies: what the callee reads is the state of the operand at that moment -/
+theorem receiver_has_current_values (w : Who) (F : Facts) (D : Decls) (owner : Nat) (m : Meth) (srcPtr vi : Bool)
+    (inst : Inst) (h : Heap) (hin : ∀ pa ∈ inst, pa.2 < h.length) :
+    values (recvStorage w F D owner m srcPtr vi inst h).1 (recvStorage w F D owner m srcPtr vi inst h).2 = values inst h :=
+  recvStorage_values w F D owner m srcPtr vi inst h hin
+
+/-- the closure a method value taken from an interface value is, when receivers without node are
+    resolved in the callback: the held storage, nothing bound -/
+def lateClo (h : MHit) (d : Dyn) (D : Decls) : Val :=
+  .fn (.meth ⟨h.owner, [], h.meth⟩ (subInst d.inst h.path) (srcIsPtr D d.t d.ptr h.path) false true)
+
+/-- **`f := i.M` on a script interface value** is executed as in Go — the closure keeps the value the
+    interface holds, nothing is read yet — when such receivers are resolved at each call
+    (`lateNilNode`, since 32d4f06), the dynamic lookup finds the method Go selects and that method has
+    the signature the interface type declares (`hsig`; otherwise Go rejects the assignment to `i`, F05-7) -/
+theorem iface_mval_agrees_partial (F : Facts) (hl : F.recvBind.lateNilNode = true) (D : Decls) (e : SEnv) (s : St)
+    (x i m : String)
+    (hd : ∀ d, look s i = some (.ifc (some d)) → ∀ h, select D d.t m = .method h → lookupMethodY F D d.t m = some h)
+    (hu : ∀ d, look s i = some (.ifc (some d)) → (∀ h, select D d.t m ≠ .method h) → lookupMethodY F D d.t m = none)
+    (hsig : ∀ d h, look s i = some (.ifc (some d)) → select D d.t m = .method h →
+      (match slook e i with | some (.ifc ity) => sigOf D ity m | _ => 0) = h.meth.sig) :
+    checkStmt .yaegi F D e (.mval x (.ifc i) m) = checkStmt .go F D e (.mval x (.ifc i) m) ∧
+    execStmt .yaegi F D e s (.mval x (.ifc i) m) = execStmt .go F D e s (.mval x (.ifc i) m) := by
+  constructor
+  · rfl
+  · simp only [execStmt]
+    cases hlk : look s i with
+    | none => rfl
+    | some v =>
+      cases v with
+      | ifc od =>
+        cases od with
+        | none => rfl
+        | some d =>
+          simp only [hl, Bool.not_true, Bool.and_false, Bool.false_eq_true, if_false]
+          cases hs : select D d.t m with
+          | method h =>
+            have hq := hsig d h hlk hs
+            simp [hd d hlk h hs]
+            intro hne
+            exact absurd hq hne
+          | field fh => simp only [hu d hlk (by intro h; rw [hs]; exact Sel.noConfusion)]
+          | ambiguous => simp only [hu d hlk (by intro h; rw [hs]; exact Sel.noConfusion)]
+          | undefined => simp only [hu d hlk (by intro h; rw [hs]; exact Sel.noConfusion)]
+      | strct t i' => rfl
+      | ptr t i' => rfl
+      | fn c => rfl
+      | zero => rfl
+
+/-- **a pointer dynamic value is dereferenced at each call; a value dynamic value is the copy made at
+    the conversion.** Calling the closure of `f := i.M` (or the wrapper a conversion to a host
+    interface makes) in a later state `s`: the body runs on storage made from the *current* heap — for a
+    value receiver a fresh copy holding the values the held storage has in `s` (the pointee as it is
+    now when the interface holds a pointer; the private copy `iface_value_is_copy` describes when it
+    holds a struct), under both rule sets, for every fact value -/
+theorem iface_wrapper_call_reads_now (w : Who) (F : Facts) (D : Decls) (e : SEnv) (s : St) (x : String)
+    (h : MHit) (inst : Inst) (sp : Bool) (hx : look s x = some (.fn (.meth h inst sp false true)))
+    (hin : ∀ pa ∈ subInst inst h.path, pa.2 < s.heap.length) :
+    execStmt w F D e s (.callf x) = runHit w F D h h.owner sp true inst s ∧
+    values (recvStorage w F D h.owner h.meth (srcIsPtr D h.owner sp h.path) true (subInst inst h.path) s.heap).1
+           (recvStorage w F D h.owner h.meth (srcIsPtr D h.owner sp h.path) true (subInst inst h.path) s.heap).2
+      = values (subInst inst h.path) s.heap := by
+  constructor
+  · simp only [execStmt, hx, Bool.false_eq_true, if_false]
+  · exact recvStorage_values w F D _ _ _ true _ s.heap hin
 
 /-- `C{nc}` with `Bump` (value receiver) and `Inc` (pointer receiver); `M` embeds `*C`; `O` embeds
     `M`; `IB = interface{ Bump() }` -/
@@ -834,8 +937,8 @@ def rDecls : Decls :=
     .iface "IB" [⟨"Bump", false, 0⟩] [] ]
 
 /-- the facts with the first arm of the binding and the callback aliasing the pointee
-    (`recv = src.Elem()`, `d[numRet] = recv`: the seeded change C05-2) -/
-def aliasFacts : Facts := { EF with recvBind := { EF.recvBind with ptrToVal := .slot, call := .slot } }
+    (`return src.Elem()`, `d[numRet] = recv`, `d[numRet] = bindRecv()`: the seeded change C05-2) -/
+def aliasFacts : Facts := { EF with recvBind := { EF.recvBind with ptrToVal := .slot, call := .slot, lateCall := .slot } }
 
 /-- the four ways of reaching a value method through a pointer: pointer variable, promotion
     through an embedded `*C`, interface holding `*C`, method value bound from a pointer -/
@@ -861,6 +964,25 @@ theorem value_receiver_alias_witness :
     recvForms.all (fun p => run .yaegi aliasFacts rDecls p != run .go aliasFacts rDecls p) = true ∧
     run .yaegi aliasFacts rDecls (recvForms.getD 0 []) = .ran [["C.Bump", "2"], ["C.Bump", "3"], ["v", "3"]] false ∧
     run .yaegi aliasFacts rDecls (recvForms.getD 1 []) = .ran [["C.Bump", "4"], ["C.Bump", "5"], ["v", "1", "2", "5"]] false := by decide
+
+/-- `T{nt}` with `Get` (value receiver) and `Inc` (pointer receiver), `IG = interface{ Get() }` -/
+def lateDecls : Decls :=
+  [ .strct "T" [⟨"nt", .int, 0⟩] [⟨"Get", false, 0⟩, ⟨"Inc", true, 0⟩],
+    .iface "IG" [⟨"Get", false, 0⟩] [] ]
+
+/-- **regression of F05-18 in the script-interface form**: `var i IG = &v; f := i.Get; (mutate v); f()`
+    prints the state `v` has when `f` is called, under both rule sets (Go dereferences the pointer the
+    interface holds at each call); with an interface holding a *value* the copy made at the conversion
+    is printed. With the facts as they were between 3081633 and 32d4f06 the receiver was copied when
+    `f` was made. -/
+example :
+    (let p := [Stmt.var "v" 0 1, .iface "i" (some 1) (.addr "v"), .mval "f" (.ifc "i") "Get", .bump "v", .callf "f", .dump "v"]
+     run .go EF lateDecls p = .ran [["T.Get", "12"], ["v", "11"]] false ∧ run .yaegi EF lateDecls p = run .go EF lateDecls p ∧
+     classify EF lateDecls p = "in-domain" ∧
+     run .yaegi Expected.C05.earlyIfaceFacts lateDecls p = .ran [["T.Get", "2"], ["v", "11"]] false) ∧
+    (let p := [Stmt.var "v" 0 1, .iface "i" (some 1) (.var "v"), .mval "f" (.ifc "i") "Get", .bump "v", .callf "f", .dump "v"]
+     run .go EF lateDecls p = .ran [["T.Get", "2"], ["v", "11"]] false ∧ run .yaegi EF lateDecls p = run .go EF lateDecls p) ∧
+    EF.recvBind.lateNilNode = true ∧ EF.recvBind.ifaceWrapHeld = true := by decide
 
 /-! ### witnesses at program level (the replay inputs of the known findings) -/
 
